@@ -53,6 +53,7 @@ def verify_one(job):
         rep = eng.verify_function(c, regimes=regimes)
         return {
             "target": target, "contract_module": c.__module__, "source_hash": rep.source_hash, "paths": rep.paths,
+            "fallback_loops": sorted(getattr(rep, "fallback_loops", [])),
             "exits": rep.exits, "live_exits": rep.live_exits, "unknown_exits": rep.unknown_exits, "error": rep.error, "trusted": sorted(rep.trusted),
             "uses_contracts": sorted(rep.uses_contracts), "solver_time": rep.solver_time, "wall": rep.wall,
             "obligations": [dict(ob.to_json(), model=ob.model) for ob in rep.obligations],
@@ -179,7 +180,15 @@ def main(argv=None):
                     samples.append({"obligation": ob["name"], "path": ob["path"][:6], "status": "valid",
                                     "backend": ob["backend"], "time_s": round(ob["time_s"], 4)})
             elif ob["status"] == "refuted":
-                violations.append((rep, ob))
+                if rep.get("fallback_loops"):
+                    # the loop the invariants were written for has changed its header: a failing obligation may mean
+                    # broken code or merely an invariant that no longer fits - it counts only with a reproduced input
+                    ob = dict(ob, needs_reproduction=True)
+                    if ob.get("model") is None:
+                        ob["model"] = {}
+                    undecided.append((rep, ob))
+                else:
+                    violations.append((rep, ob))
             else:
                 undecided.append((rep, ob))
         n_excluded += len(rep["excluded"])
@@ -338,8 +347,12 @@ def run_bounded(b, repo, seed, tier):
         out["labelled"] = "bounded (fallback: function outside the verifier's subset: %s)" % b.get("reason")
     if kind == "contract_search":
         budget = b.get("budget_s", 20) if tier == "quick" else b.get("thorough_budget_s", b.get("budget_s", 20) * 5)
+        # known-finding regimes of this function apply to the native run as they do to the proof
+        regimes = [dict(f["regime"], id=f["id"]) for f in load_findings().get("findings", [])
+                   if f.get("function") == b["target"] and f.get("regime") and f["regime"].get("kind") == "input"]
         r = native({"mode": "search", "repo": repo, "contract_module": b["contract_module"], "target": b["target"],
-                    "seed": seed, "budget_s": budget, "max_cases": b.get("max_cases", 50000), "size": b.get("size", 3)},
+                    "seed": seed, "budget_s": budget, "max_cases": b.get("max_cases", 50000), "size": b.get("size", 3),
+                    "regimes": regimes},
                    timeout=budget + 120)
         if "error" in r:
             out["error"] = r["error"]
